@@ -424,7 +424,14 @@ class Explorer:
                 b = _bor(b, excuse)
         if b.__class__ is not Bit:
             # closed by normalisation; still counted, still sent
-            sat, m = self._check(z3.BoolVal(not bool(b)))
+            if b:
+                sat, m = self._check(z3.BoolVal(False))
+            else:
+                # concretely false on this path: the path condition's model is the counterexample (abstraction first, exact encoding as fall-back)
+                try:
+                    sat, m = self._check_hybrid(1)
+                except Inconclusive as e:
+                    raise Inconclusive("%s [obligation: %s]" % (e, label[:160]))
             self.stats["trivial"] += 1
         else:
             self.nontrivial_labels.add(label)
